@@ -871,6 +871,25 @@ func NewBGP4MPStateChange(peeras, localas uint32, intfindex uint16, peerip, loca
 	}, nil
 }
 
+// addPathOptions makes the bgp codec read and write a path identifier in front
+// of every NLRI: RFC 8050 section 3 defines the BGP4MP_*_ADDPATH subtypes as
+// carrying BGP messages whose NLRI are encoded per RFC 7911. The record does
+// not say for which families, so the option covers all of them.
+var addPathOptions = func() []*bgp.MarshallingOption {
+	m := make(map[bgp.Family]bgp.BGPAddPathMode, len(bgp.AddressFamilyNameMap))
+	for f := range bgp.AddressFamilyNameMap {
+		m[f] = bgp.BGP_ADD_PATH_BOTH
+	}
+	return []*bgp.MarshallingOption{{AddPath: m}}
+}()
+
+func (m *BGP4MPMessage) marshallingOptions() []*bgp.MarshallingOption {
+	if m.isAddPath {
+		return addPathOptions
+	}
+	return nil
+}
+
 type BGP4MPMessage struct {
 	*BGP4MPHeader
 	BGPMessage        *bgp.BGPMessage
@@ -894,7 +913,7 @@ func parseBGP4MPMessage(hdr *BGP4MPHeader, isLocal bool, isAddPath bool, data []
 		return nil, fmt.Errorf("not all BGP4MPMessageAS4 bytes available")
 	}
 
-	msg, err := bgp.ParseBGPMessage(rest)
+	msg, err := bgp.ParseBGPMessage(rest, m.marshallingOptions()...)
 	if err != nil {
 		return nil, err
 	}
@@ -910,7 +929,7 @@ func (m *BGP4MPMessage) Serialize() ([]byte, error) {
 	if m.BGPMessagePayload != nil {
 		return append(buf, m.BGPMessagePayload...), nil
 	}
-	bbuf, err := m.BGPMessage.Serialize()
+	bbuf, err := m.BGPMessage.Serialize(m.marshallingOptions()...)
 	if err != nil {
 		return nil, err
 	}
